@@ -1504,6 +1504,12 @@ def check_result(y, m, config, exact, observers=True, soft=None):
             return ('observers', 'a[key]/get_legs re-assembly differs from to_numpy()')
         if a0.shape != a2.shape or not np.array_equal(a0, a2):
             return ('observers', 'to_nonsymmetric().to_numpy() differs from to_numpy()')
+        for t_, D_ in zip(y.get_blocks_charge(), y.get_blocks_shape()):
+            try:
+                if t_ not in y or (not y.isdiag and tuple(np.shape(y[t_])) != tuple(D_)):
+                    return ('observers', f'get_blocks_charge / get_blocks_shape list block {t_} of shape {D_}; "in" says {t_ in y}, a[key] has shape {np.shape(y[t_])}')
+            except YastnError:
+                return ('observers', f'get_blocks_charge lists block {t_} which a[key] does not find')
         shp = tuple(sum(l.D) for l in y.get_legs())
         if (not y.isdiag and a0.shape != shp) or tuple(y.get_shape()) != shp:
             return ('observers', f'get_legs dims {shp} vs to_numpy shape {a0.shape} / get_shape {y.get_shape()}')
